@@ -166,7 +166,7 @@ def _pick(sel, n):
     return None
 
 
-def body(days, edays, times, stats, wa, wb, ta, tb, lim, succ):
+def body(days, edays, times, stats, wa, wb, ta, tb, lim, succ, same_run=False):
     """days: pool (literal); edays: literal day index per entry; times: symbolic
     (h,m,s) per entry; stats: symbolic status selector per entry; wa/wb: window
     day selectors (len(days) = None); ta/tb symbolic (h,m,s); lim selector 0=None,
@@ -181,7 +181,7 @@ def body(days, edays, times, stats, wa, wb, ta, tb, lim, succ):
             return
         day = days[di]
         dt = mk(day, sod)
-        e = {'changeset': 'r1', 'runid': 7 + n, 'status': STATUS[st], 'target': 'T1', 'task': f'ta.a{n}',
+        e = {'changeset': 'r1', 'runid': 7 if same_run else 7 + n, 'status': STATUS[st], 'target': 'T1', 'task': f'ta.a{n}',
              'timing': {'completed': Tok(day, n, dt)}, 'version': '1.1.0'}
         entries.append(e)
         # append never looks at the instant (only at the day text): concrete island
@@ -229,7 +229,7 @@ def body(days, edays, times, stats, wa, wb, ta, tb, lim, succ):
 
 
 INFO = {
-    'explanation': 'Window lemma on the real chronicle.append/find/_load over an in-memory file system: the calendar day of every entry '
+    'explanation': 'Window lemma on the real chronicle.append/find/_load over an in-memory file system: the calendar day of every entry (entries of distinct runs, and entries of one run sharing a journal file in any order of their instants) '
     'and window bound comes from a pool (partition / selector) while every time of day (hour, minute, second of each entry and of both '
     'bounds) is a z3 integer; CrossHair exhausts all orderings. find() must return exactly the entries of the requested outcome strictly '
     'inside (after, before), newest first, the newest `limit` ones when only an upper bound or only a limit is given; after each append '
@@ -271,6 +271,10 @@ def obligations(tier):
         call = (f"{{'days': {days!r}, 'edays': {list(c)!r}, 'times': [{times}], 'stats': [{', '.join(f's{n}' for n in range(ne))}], "
                 "'wa': wa, 'wb': wb, 'ta': ta, 'tb': tb, 'lim': lim, 'succ': succ}")
         out.append(ob.make('days-' + '.'.join(map(str, c)), 'window', 'vp.harness.c18:body', sig, pre, call, timeout=900 if tier == 'quick' else 3000))
+        if len(set(c)) < len(c):
+            # entries of one run completing on one day share a journal file, in the order they were appended
+            # (any order of their instants: the times are free)
+            out.append(ob.make('samerun-' + '.'.join(map(str, c)), 'window', 'vp.harness.c18:body', sig, pre, call[:-1] + ", 'same_run': True}", timeout=900 if tier == 'quick' else 3000))
         if c in (combos[1], combos[len(combos) // 2]):
             for w in range(nd + 1):  # partition by the lower-bound selector
                 out.append(ob.make('outcomes-' + '.'.join(map(str, c)) + f'-wa{w}', 'window', 'vp.harness.c18:body', sig, pre_full + [f'wa == {w}'], call, timeout=1500 if tier == 'quick' else 3000))
